@@ -4,7 +4,7 @@ import gens
 # model (non-proof) files every run needs for the extraction
 MODEL_FILES = [
     "Params.v", "Base/Res.v", "Base/ListX.v", "Spec.v",
-    "Base/Bits.v", "Base/Word.v", "Vec/MaskRep.v", "Mem/Bytewise.v", "Mem/Generic.v", "Mem/Swar.v", "Mem/Wrappers.v",
+    "Base/Bits.v", "Base/Word.v", "Vec/MaskRep.v", "Mem/Bytewise.v", "Mem/Generic.v", "Mem/Swar.v", "Mem/Wrappers.v", "Mem/Iter.v",
     "Sub/IsEqual.v", "Sub/Pair.v",
 ]
 
@@ -70,3 +70,19 @@ def _mem(pid, gen, what):
 PROPS["C01"] = _mem("C01", gens.gen_c01, "memchr/memchr2/memchr3 and One/Two/Three::find")
 PROPS["C02"] = _mem("C02", gens.gen_c02, "memrchr/memrchr2/memrchr3 and One/Two/Three::rfind")
 PROPS["C07"] = _mem("C07", gens.gen_c07, "One::count / memchr_iter().count()")
+
+PROPS["C06"] = dict(
+    id="C06", coq_files=MEM_PROOF_FILES + ["Mem/IterProofs.v", "Props/C06.v"],
+    gen=gens.gen_c06, oracle=gens.oracle_iter, nontrivial=gens.nontrivial_iter,
+    shrink_fields=["h"], builds=["debug", "release"],
+    rule="iterator histories: every N/B string of length <= matches+2 for every match set of every haystack of <= 6 bytes (quick; 9 thorough), "
+         "plus haystacks of 16..200 bytes (1-6 vectors) with sparse/dense/two-in-one-vector matches and seeded random histories over "
+         "next/next_back/size_hint(on the live iterator)/count(on a clone), for Memchr/Memchr2/Memchr3 (top, also with forced SSE2-only and "
+         "fallback dispatch) and One/Two/Three::iter of swar/sse2/avx2; non-trivial = at least 2 calls on a haystack of at least 2 bytes",
+    assumptions=MEM_ASSUME + ["Iterator adaptors of core (Rev, FusedIterator marker) are not modelled"],
+    trusted=MEM_TRUSTED,
+)
+PROPS["C07"]["coq_files"] = MEM_PROOF_FILES + ["Mem/IterProofs.v", "Props/C07.v"]
+PROPS["C07"]["gen"] = gens.gen_c07
+PROPS["C07"]["oracle"] = gens.oracle_c07
+PROPS["C07"]["nontrivial"] = gens.nontrivial_c07
